@@ -46,6 +46,9 @@ CHECKS = {
  "C06": dict(level="exploration", design="§4 C06",
    text="Three runtime monitors over seeded histories. (1) Ownership ledger: 4 goroutines per round keep calling 9 encoding entry points (values whose output sizes sit around the 4 KiB initial buffer and on both sides of option.LimitBufferSize, which decides whether a buffer returns to a pool), Unmarshal, ast MarshalJSON/Raw/String, Quote and HTMLEscape; every returned slice/string is recorded with a checksum at return time and re-read in later rounds (12 MiB quick / 48 MiB thorough held per goroutine): a changed checksum means a later call wrote into memory already handed out; a race-detector build of the same workload reports the write when it happens; repeated encodings of the same value must give the same bytes (pool-state independence). (2) Caller buffers with guard pages: EncodeInto / HTMLEscape / utf8.CorrectWith get a destination whose spare capacity (0..72, and +-3 around len/2, len-64, len-32, len, 2*len, 4096) ends exactly at a PROT_NONE page with dirty prior contents and an optional prefix: the result must be prefix+Encode(v) for every capacity and any write outside the capacity faults. (3) Input overwrite: after Unmarshal([]byte) (7 configurations x 2 destination shapes), UnmarshalFromString under CopyString over caller-owned memory, sonic.Get([]byte), GetCopyFromString and GetWithOptions(CopyReturn) over 8 paths, the caller scribbles over its buffer: the decoded values / located nodes must not change. Runs: default pools, lowered LimitBufferSize, VM encoder, SSE table, optdec, race build.",
    technique="runtime monitors: checksum ledger over returned memory under concurrent pool churn + Go race detector; mmap/mprotect guard pages behind caller buffers; input-overwrite differential"),
+ "C07": dict(level="exploration", design="§4 C07",
+   text="Hostile-input runtime monitoring in child processes: one long sequence of inputs per worker (random bytes, token soup, mutated/truncated/valid/block documents, raw and escaped string bodies, nesting of 2047..8192 and 65535/65536 levels around every documented limit with 5 push shapes x 7 cores x complete/partial/no closers x a sibling after the deep member, nesting of 5000..300000 levels (thorough: 2,000,000), strings/numbers/objects/white space of 1e3..1e6 bytes), each through ~45 entry points in the same process (so that pooled state of a failed call meets the next call), and every 5th case a hostile Go value (cycles through pointers/maps/slices/interfaces, values nested up to 1e5 (thorough 1e6) levels, long linked lists, Marshalers returning garbage, chan/func, random catalogue values) through 7 encoding entry points. Oracles: recover() around every call; worker death (fault, stack exhaustion) reported with the input recorded just before; the watchdog (a hang is a violation here); bounded progress of stream Decode loops; cycles must be errors; every returned error: Error()/Description() return, stay <= 4096 bytes whatever the input size, and the position lies inside the source the error carries.",
+   technique="runtime monitoring under hostile workloads in crash-isolated child processes: recover/crash/watchdog oracles + error-value well-formedness assertions"),
  "C18": dict(level="exploration", design="§4 C18",
    text="Metamorphic runtime monitoring of the 16 Config switches: for a switch S and a random setting R of the 15 others, the same value/document is run with R and R+S in the same process and the difference must be exactly S's documented effect (EscapeHTML == json.HTMLEscape(out_R); SortMapKeys reorders members only; NoNullSliceOrMap == out_R of the value with nil containers made empty; ValidateString == UTF-8-corrected out_R / decode of the corrected document; EncodeNullForInfOrNan via a sentinel; CompactMarshaler changes no token; marshaler switches inert on marshaler-free types; NoEncoderNewline removes only the stream newline; UseInt64/UseNumber change only interface{} numbers; CopyString/NoValidateJSONSkip inert on valid documents; DisallowUnknownFields agrees with encoding/json on which documents have unknown keys; UseUnicodeErrors inert without lone surrogates and reporting with them; CaseSensitive == encoding/json on the exact-key-filtered document), plus entry-point equivalence (encoder.Encode/EncodeInto/MarshalToString/MarshalIndent/stream encoder vs Froze().Marshal; decoder.Decoder+SetOptions/UnmarshalFromString vs Froze().Unmarshal). Runs in a JIT process and a VM-encoder+optdec process; per-switch 'fired' counters show the switch had something to act on.",
    technique="metamorphic runtime monitor (single-switch relations with encoding/json post-processors as oracles) + entry-point equivalence, seeded over types/values/documents/other switches"),
